@@ -368,3 +368,22 @@ package executor
 //@   assert@call delFee: arg1 == ret(Hash)
 //@   assert@call Block).Hash: arg0 == data.Block
 //@   ensures result1 == nil ==> len(result0) == 1 && result0[0] == ret0(delFee)
+
+// ---- C13: plugins run in an order that does not depend on map iteration ---------------------------------
+// sort.Strings sorts in place and keeps the set of elements
+//@ smt (declare-fun sortperm (Int Int) Int)
+//@ smt (declare-fun sortinv (Int Int) Int)
+//@ trusted func sort.Strings
+//@   frame mem:string
+//@   ensures forall a :: forall b :: 0 <= a && a < b && b < len(x) ==> !blexlt(x[b], x[a])
+//@   ensures forall i :: 0 <= i && i < len(x) ==> 0 <= sortperm(sarr(x), i) && sortperm(sarr(x), i) < len(x) && x[i] == old(x[sortperm(sarr(x), i)])
+//@   ensures forall j :: 0 <= j && j < len(x) ==> 0 <= sortinv(sarr(x), j) && sortinv(sarr(x), j) < len(x) && x[sortinv(sarr(x), j)] == old(x[j])
+
+// the result is sorted and holds exactly the registered names: it is determined by the key set, whatever
+// order the map hands its keys out in
+//@ func sortedPluginNames [C13]
+//@   opt safety=assumed overflow=assumed
+//@   ensures forall a :: forall b :: 0 <= a && a < b && b < len(result) ==> !blexlt(result[b], result[a])
+//@   ensures forall k Bytes :: has(globalPlugins, k) ==> exists i :: 0 <= i && i < len(result) && result[i] == k
+//@   loop 0 invariant forall j :: 0 <= j && j < len(names) ==> visited(names[j]) && has(globalPlugins, names[j])
+//@   loop 0 invariant forall k Bytes :: visited(k) ==> exists j :: 0 <= j && j < len(names) && names[j] == k
